@@ -31,6 +31,10 @@ where
     /// and a given window length
     #[inline]
     pub fn new(view: V, window_len: usize) -> Self {
+        assert!(
+            window_len >= 3,
+            "window_len must be at least 3: the recursion reads the outputs of the two previous steps"
+        );
         CyberCycle {
             view,
             window_len,
